@@ -75,8 +75,8 @@ func (n jnode) build() any {
 		return stackage.Eq
 	case "op0":
 		return stackage.ComparisonOperator(0)
-	case "uop":
-		return userOp{"~=", "ctx"}
+	case "uop": // a user-defined operator of string kind that files itself under the package's own context name
+		return cmpCtxOp("~=")
 	case "uop-empty":
 		return userOp{"", ""}
 	case "stack":
@@ -109,6 +109,11 @@ type c16Case struct {
 // third entry of a CONDITION row) is replaced by repl.
 // siblingValues: the same input with every multi-valued entry (bytes, maps) and every float replaced by a
 // value of the same type and size that differs inside.
+type cmpCtxOp string
+
+func (o cmpCtxOp) String() string  { return string(o) }
+func (o cmpCtxOp) Context() string { return stackage.Eq.Context() }
+
 func siblingValues(n jnode) (jnode, bool) {
 	if to, ok := map[string]string{"bytes": "bytes2", "map": "map2", "float": "float2"}[n.T]; ok {
 		return jnode{T: to}, true
@@ -516,7 +521,7 @@ func c16Inputs(c *Ctx) []jnode {
 	s := func(x string) jnode { return jnode{T: "str", S: x} }
 	l := func(k ...jnode) jnode { return jnode{T: "list", Kids: k} }
 	labels := []jnode{s("AND"), s("or"), s("Not"), s("LIST"), s("basic"), s("CONDITION"), s("condition")}
-	atoms := []jnode{s("junk"), s(""), {T: "int"}, {T: "nil"}, {T: "tnil-stack"}, {T: "tnil-cond"}, {T: "tnil-int"}, {T: "tnil-pp"}, {T: "tnil-ppp"}, {T: "bytes"}, {T: "nil-bytes"}, {T: "map"}, {T: "op"}, {T: "op0"}, {T: "uop"}, {T: "uop-empty"},
+	atoms := []jnode{s("junk"), s("<invalid_stack>"), s(""), {T: "int"}, {T: "nil"}, {T: "tnil-stack"}, {T: "tnil-cond"}, {T: "tnil-int"}, {T: "tnil-pp"}, {T: "tnil-ppp"}, {T: "bytes"}, {T: "nil-bytes"}, {T: "map"}, {T: "op"}, {T: "op0"}, {T: "uop"}, {T: "uop-empty"},
 		{T: "stack"}, {T: "stack0"}, {T: "cond"}, {T: "cond0"}, {T: "float"}, {T: "bool"}}
 	// depth-1 nested lists: every label followed by 0..2 atoms, condition rows of length 1..6, and junk lists
 	var nested []jnode
